@@ -584,11 +584,14 @@ Lemma canon_targets : forall s e t,
 Proof.
   intros s e t H. apply In_targets in H. destruct H as [p [Hp Ht]].
   unfold canon in Hp. apply filter_In in Hp. destruct Hp as [Hp _].
-  apply in_app_or in Hp. destruct Hp as [Hp|Hp].
+  apply in_app_or in Hp. destruct Hp as [Hp|Hp];
+    [|apply in_app_or in Hp; destruct Hp as [Hp|Hp]].
   - left. apply in_map_iff in Hp. destruct Hp as [a [E _]]. subst p. cbn [snd] in Ht.
     eapply In_getr; eauto.
   - right. destruct (est e) eqn:L; cbn [is_live] in Hp; [| destruct Hp | destruct Hp | destruct Hp].
     split; auto. apply in_or_app. destruct Hp as [Hp|[Hp|[]]]; subst p; cbn [snd] in Ht; auto.
+  - left. apply in_map_iff in Hp. destruct Hp as [a [E _]]. subst p. cbn [snd] in Ht.
+    eapply In_getr; eauto.
 Qed.
 
 Lemma nd_dump_abs : forall s, Inv s -> nd_dump (absS s) = true.
